@@ -30,6 +30,7 @@ func runC16(c *core.Ctx) {
 	c.RuleDoc("R16.10", "the cache's info memo holds the source's Stat of the full name only (= R10.3)")
 	c.RuleDoc("R16.11", "no file system handed out derives from a one-time route resolution (= R07.4)")
 	c.RuleDoc("R16.12", "a paging ReadDir moves its cursor by exactly the number of entries of the page it returns")
+	c.RuleDoc("R16.13", "a directory entry's Type() answers type bits only (FileMode.Type() or a delegate's Type())")
 	c.RuleDoc("R16.9", "the cursor of a paging ReadDir moves only for a page that is returned")
 	c.RuleDoc("R16.8", "the mount table matches names against mount points on path-element boundaries (listed siblings are Stat'ed in the file system that listed them)")
 	c.RuleDoc("R16.7", "the page end is computed without integer overflow")
@@ -70,6 +71,7 @@ func runC16(c *core.Ctx) {
 			c.Hard("anchor: expected >= 2 windowing ReadDir implementations, found %d", windowing)
 		}
 		r16Sorted(c, p)
+		r16EntryTypeIsTypeBits(c, p)
 		// R16.8: the mount table resolves a name on element boundaries: a sibling whose name merely starts with a mount
 		// point's name ("lib64" next to the mount point "lib") is listed by the root but would be Stat'ed inside the mount
 		boundaryTests(c, p, "R16.8", "mount")
@@ -94,6 +96,7 @@ func runC16(c *core.Ctx) {
 	c.Floor("R16.8", 1)
 	c.Floor("R16.9", 2)
 	c.Floor("R16.12", 2)
+	c.Floor("R16.13", 1)
 	c.Floor("R16.10", 1)
 	c.Floor("R16.11", 8)
 	c.Floor("R16.1", 2)
@@ -950,5 +953,61 @@ func r16CursorMovesByPage(c *core.Ctx, p *load.Program, tk string, fn *ssa.Funct
 		default:
 			c.Bad(rule, key, p.Pos(st.Pos()), fmt.Sprintf("%s: on %d of %d paths the cursor stored at %s is not 'old cursor + (high - low)' of the page returned: with the cursor beyond the end of the listing (after a Seek) the start is clamped and the cursor is pulled back to the listing's length, where the sibling implementation leaves it — every later relative Seek and page then differs between a file system and a cache or view of it", fname(fn), paths-okPaths, paths, p.Pos(st.Pos())))
 		}
+	}
+}
+
+// r16EntryTypeIsTypeBits (R16.13): Type() of every io/fs.DirEntry implementation of the module returns
+// FileMode.Type() of a mode, another entry's Type(), or a value masked with io/fs.ModeType. "The mode without the
+// permission bits" keeps setuid/setgid/sticky: a 1777 directory is listed with kind dt--------- while Stat (and the
+// entry's own Info()) say d---------.
+func r16EntryTypeIsTypeBits(c *core.Ctx, p *load.Program) {
+	entI := stdIface(p, "io/fs", "DirEntry")
+	if entI == nil {
+		c.Hard("anchor: io/fs.DirEntry")
+		return
+	}
+	const modeType = int64(1)<<31 | 1<<27 | 1<<25 | 1<<24 | 1<<26 | 1<<21 | 1<<19 // io/fs.ModeType
+	n := 0
+	for _, t := range implementers(p, entI) {
+		if strings.HasPrefix(typeKey(t), "fstest.") {
+			continue
+		}
+		fn := methodsOf(p, t)["Type"]
+		if fn == nil || fn.Blocks == nil {
+			continue
+		}
+		n++
+		bad := ""
+		for _, r := range ssax.Returns(fn) {
+			v := resolveSpilled(r.Results[0], r)
+			ok := false
+			switch x := v.(type) {
+			case *ssa.Call:
+				if callee := ssax.StaticCallee(x); callee != nil && callee.Name() == "Type" {
+					ok = true
+				}
+				if m := ssax.InvokeMethod(x); m != nil && m.Name() == "Type" {
+					ok = true
+				}
+			case *ssa.BinOp:
+				if x.Op == token.AND {
+					for _, side := range []ssa.Value{x.X, x.Y} {
+						if k, isK := ssax.ConstInt(side); isK && k&^modeType == 0 {
+							ok = true
+						}
+					}
+				}
+			case *ssa.Const:
+				ok = true
+			}
+			if !ok {
+				bad = p.Pos(r.Pos())
+			}
+		}
+		c.Check(bad == "", "R16.13", typeKey(t)+".Type|type-bits-only", p.Pos(fn.Pos()), "Type() returns FileMode.Type() / a delegate's Type() / a ModeType-masked value",
+			fmt.Sprintf("%s returns at %s a mode that is not reduced to its type bits: for a child with setuid, setgid or sticky set the entry's kind carries bits outside io/fs.ModeType and disagrees with Stat of the child and with the entry's own Info()", fname(fn), bad))
+	}
+	if n == 0 {
+		c.Hard("anchor: DirEntry implementations with a Type method")
 	}
 }
